@@ -341,6 +341,17 @@ func checkCase(c *Case, count bool) (err error) {
 			f.ServeHTTP(httptest.NewRecorder(), httptest.NewRequest("GET", "http://example.com/zz-c19-redirect/1/", nil))
 			f.ServeHTTP(httptest.NewRecorder(), httptest.NewRequest("GET", "http://example.com/zz-c19-redirect/1", nil))
 		}
+		// a context obtained from Router.Lookup for the case's route, right after requests served by a route with another resolver
+		if !want.ambiguousResolver {
+			lreq := httptest.NewRequest("GET", "http://"+hostOr(host)+path, nil)
+			if lr, cc, _ := f.Lookup(fox.NewTestContextOnly(httptest.NewRecorder(), lreq).Writer(), lreq); lr != nil {
+				got := clientIP(cc)
+				cc.Close()
+				if lr.Pattern() == c.Pattern && got != wantIP(want.resolver) {
+					return fmt.Errorf("%sContext.ClientIP on the context returned by Router.Lookup = %s, want %s (the route's resolver)", desc, got, wantIP(want.resolver))
+				}
+			}
+		}
 		for _, k := range []string{"noroute", "nomethod", "options", "redirect"} {
 			if v, ok := seen[k]; ok && v != wantIP(g.resolver) {
 				return fmt.Errorf("%sContext.ClientIP inside the %s handler = %s, want %s (the router-wide resolver)", desc, k, v, wantIP(g.resolver))
